@@ -169,6 +169,9 @@ func runConcOnce(p ConcProfile, seed int64, progs [][]CTxn, choose chooser, midD
 			out = w.T.Finish()
 		}
 	}()
+	if p.Name == "c09" && seed%2 == 0 {
+		w.WideCols["a"] = true // values and deltas of more than 32 bits (more than 20 for the 32-bit kinds)
+	}
 	P := w.NewColl("P", p.Capacity, p.Transport, 0)
 	var R *Coll
 	if p.Replica {
